@@ -364,6 +364,7 @@ func phaseStream(r *vk.Run) {
 		var mu sync.Mutex
 		var gs streamStats
 		cfgSeen := map[int]int{}
+		sampled := map[int]int{}
 		zero := make([]int, len(g.cfgs))
 		st := r.ExploreDeviations(g.bound, func(ch *vk.Chooser) {
 			ci := ch.Choose(zero)
@@ -372,11 +373,15 @@ func phaseStream(r *vk.Run) {
 			v, devs := runStream(cfg, ch, &s)
 			mu.Lock()
 			gs.add(&s)
+			if len(devs) == g.bound {
+				sampled[ci]++
+			}
+			first := sampled[ci] == 1
 			cfgSeen[ci]++
 			mu.Unlock()
 			if v != nil {
 				agg.add(v.key, v.what, map[string]interface{}{"part": "stream", "group": g.name, "config": cfg.String(), "short_reads": devs, "choices": append([]int{}, ch.Choices...)}, len(devs), cfg.estReads())
-			} else if len(devs) == g.bound && ci%97 == 3 && s.short == g.bound {
+			} else if len(devs) == g.bound && ci%97 == 3 && s.short == g.bound && first {
 				r.Sample(map[string]interface{}{"part": "stream", "config": cfg.String(), "short_reads": devs, "result": "identical"})
 			}
 		})
